@@ -225,6 +225,22 @@ Theorem C19_http_end_to_end : forall rt iv tmo now ls (s : hst rpc bytes) q c r 
 Proof. exact http_end_to_end. Qed.
 Print Assumptions C19_http_end_to_end.
 
+(* no refusal depends on size: the encoding of EVERY canonical envelope whose source maps to an
+   address - whatever the length of its body - is classified "deliver, as that envelope" ... *)
+Theorem C19_http_accepts_every_envelope : forall (rt : rpc -> route) e a,
+  wf e = true -> rt e = RtAddr a -> http_classify decode rt (BBytes (encode e)) = VDeliver a e.
+Proof. exact http_accepts_every_envelope. Qed.
+Print Assumptions C19_http_accepts_every_envelope.
+
+(* ... so a request carrying it is never answered 400 *)
+Theorem C19_http_never_400_on_envelope : forall rt iv tmo now ls (s : hst rpc bytes) q e a,
+  h_run decode rt iv tmo now ls = Some s -> wf e = true -> rt e = RtAddr a ->
+  In (HEvReq q (BBytes (encode e))) (hs_log s) ->
+  (forall b, In (HEvReq q b) (hs_log s) -> b = BBytes (encode e)) ->
+  ~ In (HEvResp q 400) (hs_log s).
+Proof. exact http_never_400_on_envelope. Qed.
+Print Assumptions C19_http_never_400_on_envelope.
+
 (* ---------- non-vacuity ---------- *)
 Example C19_ex_wire :
   let e := mkRpc 18446744073709551615%N
